@@ -162,7 +162,12 @@ class Context(object):
             self.solver_seconds += s['solver_seconds']
             self.samples.extend({'function': ident, **x} for x in s['samples'][:2])
             if s['obligations'] == 0 or s['feasible_returns'] == 0:
-                self.crashed.append('%s: vacuous (no obligations / no feasible path)' % ident)
+                if s['unsupported_full']:
+                    # nothing could be decided because every path left the modelled subset (e.g. a renamed
+                    # variable an invariant mentions): undecided, reported below path by path
+                    self.undecided.append('%s: no path of this function could be decided on this tree' % ident)
+                else:
+                    self.crashed.append('%s: vacuous (no obligations / no feasible path)' % ident)
             for u in s['unsupported_full']:
                 self.undecided.append('%s: path out of reach: %s' % (ident, u))
             seen = set()
